@@ -433,6 +433,10 @@ func EnvJSON(t *rapid.T, label string) json.RawMessage {
 		if rapid.IntRange(0, 3).Draw(t, "red") == 0 {
 			m["redaction_policy"] = "urns"
 		}
+		if rapid.IntRange(0, 3).Draw(t, "nf") == 0 {
+			// number formats hosts really configure (symbols that are regular-expression syntax are an invalid configuration)
+			m["number_format"] = rapid.SampledFrom([]map[string]string{{"decimal_symbol": ",", "digit_grouping_symbol": "."}, {"decimal_symbol": ".", "digit_grouping_symbol": " "}, {"decimal_symbol": ",", "digit_grouping_symbol": "'"}}).Draw(t, "numfmt")
+		}
 		b, _ := json.Marshal(m)
 		return b
 	}).Draw(t, label)
